@@ -213,7 +213,13 @@ type SolveStats struct {
 	mu        sync.Mutex
 	bySolver  map[string]float64
 	nBySolver map[string]int
+	// second-solver cross-check (thorough tier)
+	crossChecked, crossAgreed int
+	crossDisagree             []string
 }
+
+// CrossCheck switches the second-solver cross-check on.
+var CrossCheck bool
 
 func (v *Verifier) solveAll(x *Exec, obls []*Obligation, timeoutS int, stats *SolveStats) {
 	sem := make(chan struct{}, 16)
@@ -279,6 +285,24 @@ func (v *Verifier) solveAll(x *Exec, obls []*Obligation, timeoutS int, stats *So
 				stats.mu.Lock()
 				stats.bySolver[r.solver] += r.time
 				stats.nBySolver[r.solver]++
+				stats.mu.Unlock()
+			}
+			// thorough tier: one discharged obligation in eight is put to a second,
+			// independent solver; a `sat` there would be a solver disagreement
+			if CrossCheck && stats != nil && o.Status == "discharged" && !o.ExpectSat && o.scriptHash != "" && o.scriptHash[0]%8 == 0 {
+				other := solvers[1]
+				if r.solver == other.name {
+					other = solvers[0]
+				}
+				r2 := runSolver(context.Background(), other, o.Script, 5)
+				stats.mu.Lock()
+				stats.crossChecked++
+				switch r2.verdict {
+				case "unsat":
+					stats.crossAgreed++
+				case "sat":
+					stats.crossDisagree = append(stats.crossDisagree, o.Label+" ("+r.solver+" unsat, "+other.name+" sat)")
+				}
 				stats.mu.Unlock()
 			}
 			if (o.Status == "discharged" || o.Status == "infeasible") && !KeepScripts {
